@@ -203,6 +203,8 @@ def skipSpaceStopLangAct (b : Buf) : Buf :=
 /-- the language tokens `skip_space(langs)` passes over -/
 def skippedLangs (b : Buf) : List Tok := (b.takeWhile isSpaceTok).filter isLangK
 def lookAhead (b : Buf) : Option Tok := (skipSpace b).head?
+/-- `look_ahead(stop_lang=True)`: the search also ends at a language token (the end of a language scope) -/
+def lookAheadSL (b : Buf) : Option Tok := (b.dropWhile (fun t => isSpaceTok t && !isLangK t)).head?
 
 def txtIs (t : Tok) (s : String) : Bool := t.txt == s.toList
 
